@@ -1149,6 +1149,221 @@ example : opNeg (K := ℚ) (sig12 "f") = .ok ⟨1, 2, 1, 2, [], [(0, 0, 1)], [(0
 
 example : (sig12 "f").nin = 1 ∧ (sig12 "f").nout = 2 := by decide
 
+/-! ## Part 6 — `add_unused` names every appended signal after the port it is wired to; base names
+and ranges of a vector signal list its channels in dictionary order, for any number of channels -/
+
+section unused
+
+variable {K : Type} [Field K] [DecidableEq K]
+
+/-- a flat index that `unflat` resolves is a port of an existing subsystem, at that flat index. -/
+theorem unflat_spec (sigs : List SysSig) (d : Dict) (k si i : Nat)
+    (h : unflat sigs d k = some (si, i)) :
+    ∃ S, sigs[si]? = some S ∧ i < (S.labels d).length ∧ k = offset sigs d si + i := by
+  unfold unflat at h
+  have hm := List.mem_of_mem_head? (Option.mem_def.mpr h)
+  rcases List.mem_filterMap.mp hm with ⟨Sj, hSj, hk⟩
+  have hget := List.mem_zipIdx_iff_getElem?.mp hSj
+  split at hk
+  · next hc =>
+    injection hk with hk
+    injection hk with h1 h2
+    subst h1
+    exact ⟨Sj.1, hget, by omega, by omega⟩
+  · cases hk
+
+/-- what `unused_signals()` reports as an unused input is an existing subsystem input whose row
+is zero in `input_map` and in `connect_map`. -/
+theorem unusedInputs_spec (sigs : List SysSig) (m : Maps K) (p : Nat × Nat)
+    (hp : p ∈ unusedInputs sigs m) :
+    ∃ S, sigs[p.1]? = some S ∧ p.2 < S.inputs.length ∧
+      rowUsed m.inp (offset sigs .input p.1 + p.2) = false ∧
+      rowUsed m.connect (offset sigs .input p.1 + p.2) = false := by
+  unfold unusedInputs at hp
+  rcases List.mem_filterMap.mp hp with ⟨r, _, hr⟩
+  split at hr
+  · cases hr
+  · next hu =>
+    obtain ⟨S, hS, hi, hk⟩ := unflat_spec sigs .input r p.1 p.2 hr
+    simp only [Bool.or_eq_true, not_or, Bool.not_eq_true] at hu
+    exact ⟨S, hS, hi, hk ▸ hu.1, hk ▸ hu.2⟩
+
+/-- idem for outputs: the column is zero in `output_map` and in `connect_map`. -/
+theorem unusedOutputs_spec (sigs : List SysSig) (m : Maps K) (p : Nat × Nat)
+    (hp : p ∈ unusedOutputs sigs m) :
+    ∃ S, sigs[p.1]? = some S ∧ p.2 < S.outputs.length ∧
+      colUsed m.out (offset sigs .output p.1 + p.2) = false ∧
+      colUsed m.connect (offset sigs .output p.1 + p.2) = false := by
+  unfold unusedOutputs at hp
+  rcases List.mem_filterMap.mp hp with ⟨r, _, hr⟩
+  split at hr
+  · cases hr
+  · next hu =>
+    obtain ⟨S, hS, hi, hk⟩ := unflat_spec sigs .output r p.1 p.2 hr
+    simp only [Bool.or_eq_true, not_or, Bool.not_eq_true] at hu
+    exact ⟨S, hS, hi, hk ▸ hu.1, hk ▸ hu.2⟩
+
+theorem unusedLabels_cons (sigs : List SysSig) (d : Dict) (p : Nat × Nat) (ps : List (Nat × Nat))
+    (S : SysSig) (l : Label) (hS : sigs[p.1]? = some S) (hl : (S.labels d)[p.2]? = some l) :
+    unusedLabels sigs d (p :: ps) = l.raw :: unusedLabels sigs d ps := by
+  simp [unusedLabels, List.filterMap_cons, hS, hl]
+
+/-- the label list `add_unused` appends is aligned with the list entries it appends: the `k`-th
+label is the label of the `k`-th appended port (no label is dropped or shifted), whatever the
+order in which the ports are enumerated. -/
+theorem unusedLabels_aligned (sigs : List SysSig) (d : Dict) (ps : List (Nat × Nat))
+    (hv : ∀ p ∈ ps, ∃ S, sigs[p.1]? = some S ∧ p.2 < (S.labels d).length) :
+    List.Forall₂ (fun p name => ∃ S l, sigs[p.1]? = some S ∧ (S.labels d)[p.2]? = some l ∧
+      name = l.raw) ps (unusedLabels sigs d ps) := by
+  induction ps with
+  | nil => exact List.Forall₂.nil
+  | cons p ps ih =>
+    obtain ⟨S, hS, hi⟩ := hv p (List.mem_cons_self ..)
+    have hl : (S.labels d)[p.2]? = some (S.labels d)[p.2] := List.getElem?_eq_getElem hi
+    rw [unusedLabels_cons sigs d p ps S _ hS hl]
+    exact List.Forall₂.cons ⟨S, _, hS, hl, rfl⟩ (ih fun q hq => hv q (List.mem_cons_of_mem _ hq))
+
+/-- `add_unused`, inputs: the entry `(isys, isig)` appended to `inplist` at position `k` for an
+unused subsystem input writes exactly one `1` into `input_map` — column `k`, the row of that
+subsystem input, a row that was zero in `input_map` and `connect_map` — and the label appended to
+`inputs` for it is the label of that same subsystem input: the new external input is wired to
+the port it is named after. -/
+theorem added_input_wired_and_named (sigs : List SysSig) (m : Maps K) (p : Nat × Nat)
+    (hp : p ∈ unusedInputs sigs m) (k : Nat) :
+    ∃ S l, sigs[p.1]? = some S ∧ S.inputs[p.2]? = some l ∧
+      inpEntries (K := K) sigs k [pairSpec p.1 p.2]
+        = .ok [(offset sigs .input p.1 + p.2, k, 1)] ∧
+      unusedLabels sigs .input [p] = [l.raw] ∧
+      rowUsed m.inp (offset sigs .input p.1 + p.2) = false ∧
+      rowUsed m.connect (offset sigs .input p.1 + p.2) = false := by
+  obtain ⟨S, hS, hi, h1, h2⟩ := unusedInputs_spec sigs m p hp
+  have hl : S.inputs[p.2]? = some S.inputs[p.2] := List.getElem?_eq_getElem hi
+  refine ⟨S, _, hS, hl, inpEntries_pair sigs k p.1 p.2 S hS hi, ?_, h1, h2⟩
+  rw [unusedLabels_cons sigs .input p [] S _ hS hl]
+  rfl
+
+/-- `add_unused`, outputs: the appended `outlist` entry at position `k` reads exactly the unused
+subsystem output (gain 1, row `k`), and is named by that output's label. -/
+theorem added_output_wired_and_named (sigs : List SysSig) (m : Maps K) (p : Nat × Nat)
+    (hp : p ∈ unusedOutputs sigs m) (k : Nat) :
+    ∃ S l, sigs[p.1]? = some S ∧ S.outputs[p.2]? = some l ∧
+      outEntries (K := K) sigs k [pairSpec p.1 p.2]
+        = .ok [(k, offset sigs .output p.1 + p.2, 1)] ∧
+      unusedLabels sigs .output [p] = [l.raw] ∧
+      colUsed m.out (offset sigs .output p.1 + p.2) = false ∧
+      colUsed m.connect (offset sigs .output p.1 + p.2) = false := by
+  obtain ⟨S, hS, hi, h1, h2⟩ := unusedOutputs_spec sigs m p hp
+  have hl : S.outputs[p.2]? = some S.outputs[p.2] := List.getElem?_eq_getElem hi
+  refine ⟨S, _, hS, hl, outEntries_pair sigs k p.1 p.2 S hS hi, ?_, h1, h2⟩
+  rw [unusedLabels_cons sigs .output p [] S _ hS hl]
+  rfl
+
+/-- the names `addedLabels` reports are aligned with the appended ports `addedSignals` reports
+(same length, `k`-th name = label of the `k`-th port). -/
+theorem addedLabels_aligned (a : Args K) (di dout : List (Nat × Nat))
+    (h : addedSignals a = .ok (di, dout)) :
+    ∃ li lo, addedLabels a = .ok (li, lo) ∧
+      List.Forall₂ (fun p name => ∃ S l, a.sigs[p.1]? = some S ∧ S.inputs[p.2]? = some l ∧
+        name = l.raw) di li ∧
+      List.Forall₂ (fun p name => ∃ S l, a.sigs[p.1]? = some S ∧ S.outputs[p.2]? = some l ∧
+        name = l.raw) dout lo := by
+  refine ⟨unusedLabels a.sigs .input di, unusedLabels a.sigs .output dout,
+    by simp [addedLabels, h], ?_, ?_⟩
+  · refine unusedLabels_aligned a.sigs .input di fun p hp => ?_
+    unfold addedSignals at h
+    split at h
+    · injection h with h; injection h with h1 h2; subst h1; cases hp
+    · split at h
+      · cases h
+      · next m hm =>
+        injection h with h; injection h with h1 h2; subst h1
+        obtain ⟨S, hS, hi, _⟩ := unusedInputs_spec a.sigs m p hp
+        exact ⟨S, hS, hi⟩
+  · refine unusedLabels_aligned a.sigs .output dout fun p hp => ?_
+    unfold addedSignals at h
+    split at h
+    · injection h with h; injection h with h1 h2; subst h2; cases hp
+    · split at h
+      · cases h
+      · next m hm =>
+        injection h with h; injection h with h1 h2; subst h2
+        obtain ⟨S, hS, hi, _⟩ := unusedOutputs_spec a.sigs m p hp
+        exact ⟨S, hS, hi⟩
+
+end unused
+
+/-- non-vacuity (the shape of the seeded failing input): `P` with inputs `u, d1, d2`, `C` with
+inputs `ff, e`; `u` and `e` are driven, the unused inputs `(0,1), (0,2), (1,0)` are appended in
+this order and named `d1, d2, ff`; the appended columns 1, 2, 3 of `input_map` hit rows 1, 2, 3. -/
+def sigsUn : List SysSig :=
+  [⟨"P", [⟨"u", none⟩, ⟨"d1", none⟩, ⟨"d2", none⟩], [⟨"y", none⟩]⟩,
+   ⟨"C", [⟨"ff", none⟩, ⟨"e", none⟩], [⟨"u", none⟩, ⟨"mon", none⟩]⟩]
+
+def unArgs : Args ℚ :=
+  { sigs := sigsUn
+    conns := .explicit [.list [pairSpec 0 0, pairSpec 1 0]]
+    inplistNone := false, inplist := [.single (pairSpec 1 1)], inputs := some 1
+    outlistNone := false, outlist := [.single (pairSpec 0 0)], outputs := some 1
+    addUnused := true }
+
+example : addedSignals unArgs = .ok ([(0, 1), (0, 2), (1, 0)], [(1, 1)]) := by decide +kernel
+
+example : addedLabels unArgs = .ok (["d1", "d2", "ff"], ["mon"]) := by decide +kernel
+
+example : interconnect unArgs = .ok ⟨5, 3, 4, 2, [(0, 1, 1)],
+    [(4, 0, 1), (1, 1, 1), (2, 2, 1), (3, 3, 1)], [(0, 0, 1), (1, 2, 1)]⟩ := by decide +kernel
+
+/-- a 12-channel vector signal `u[0] … u[11]`: the base name lists the channels 0 … 11 in this
+order, the range `u[9:11]` is `[9, 10]`, `u[2:]` is `[2, …, 11]` (numeric = dictionary order, not
+the lexicographic order `u[0], u[1], u[10], u[11], u[2], …` of the label strings). -/
+def vecLabels (b : String) (n : Nat) : List Label :=
+  (List.range n).map fun k => ⟨s!"{b}[{k}]", some (b, k)⟩
+
+theorem withBase_vecLabels_aux (b : String) (ok : Nat → Bool) : ∀ n s : Nat,
+    ((((List.range' s n).map fun k => (⟨s!"{b}[{k}]", some (b, k)⟩ : Label)).zipIdx s).filterMap
+      fun lk => match lk.1.idx with
+        | some (b', m) => if b' == b && ok m then some lk.2 else none
+        | none => none) = (List.range' s n).filter ok := by
+  intro n
+  induction n with
+  | zero => intro s; simp
+  | succ n ih =>
+    intro s
+    rw [List.range'_succ, List.map_cons, List.zipIdx_cons, List.filterMap_cons, ih (s + 1),
+      List.filter_cons]
+    cases h : ok s <;> simp [h]
+
+/-- **any width**: for the default labels `b[0] … b[n-1]` of a vector signal, the channels a base
+name / range selects are the channel numbers themselves, in numeric order — also for `n ≥ 11`,
+where the lexicographic order of the label strings is a different one. -/
+theorem withBase_vecLabels (b : String) (n : Nat) (ok : Nat → Bool) :
+    withBase (vecLabels b n) b ok = (List.range n).filter ok := by
+  have := withBase_vecLabels_aux b ok n 0
+  rw [← List.range_eq_range'] at this
+  exact this
+
+/-- the range `b[lo:hi]` of an `n`-channel signal with default labels is `lo, lo+1, …, hi-1`
+(clipped to `n`), an empty selection is an error. -/
+theorem slice_vecLabels (b : String) (n : Nat) (lo hi : Option Nat) :
+    findSignals (vecLabels b n) [.slice b lo hi]
+      = if ((List.range n).filter (inRange lo hi)).isEmpty then none
+        else some ((List.range n).filter (inRange lo hi)) := by
+  simp only [findSignals, List.flatMap_cons, List.flatMap_nil, List.append_nil, findOne,
+    withBase_vecLabels, List.isEmpty_map]
+  split
+  · rfl
+  · induction ((List.range n).filter (inRange lo hi)) with
+    | nil => rfl
+    | cons a l ih => simp [List.mapM_cons, ih]
+
+example : findSignals (vecLabels "u" 12) [.base "u"] = some (List.range 12) := by decide +kernel
+
+example : findSignals (vecLabels "u" 12) [.slice "u" (some 9) (some 11)] = some [9, 10] := by
+  decide +kernel
+
+example : findSignals (vecLabels "u" 12) [.slice "u" (some 2) none]
+    = some [2, 3, 4, 5, 6, 7, 8, 9, 10, 11] := by decide +kernel
+
 /-- a feedthrough chain `u₀ → u₁ → u₂` meets the hypotheses of `staticIO_complete`. -/
 example : ∀ i j : Fin 3, (!![0, 0, 0; 2, 0, 0; 0, -1, 0] : Matrix (Fin 3) (Fin 3) ℚ) i j ≠ 0 →
     j.val < i.val := by
